@@ -20,6 +20,12 @@ MFI = "pandora/filter/median_for_intervals.py"
 COM = "pandora/common.py"
 
 
+def _where_pred(node: ast.AST):
+    if isinstance(node, ast.Call) and (dotted(node.func) or "") in ("np.where", "numpy.where") and len(node.args) == 1:
+        return node.args[0]
+    return node if isinstance(node, (ast.Compare, ast.BoolOp, ast.BinOp, ast.UnaryOp)) else None
+
+
 def _ex(t: str) -> ast.AST:
     return ast.parse(t, mode="eval").body
 
@@ -192,6 +198,29 @@ def run(ctx: Ctx) -> None:
         tgt = [canon(s.targets[0]) for s in lp.body if isinstance(s, ast.Assign)]
         okl = okl and any(f"{dp}['confidence_measure'].sel({{'indicator': {v}}}).copy(deep=True).data" == t for t in body_txt) and any("med_filter.median_filter(" in t for t in body_txt) and f"{dp}['confidence_measure'].loc[{{'indicator': {v}}}]" in tgt
     ctx.ob("C10.INTERVALS", MFI, loops[0] if loops else f, "both interval-bound bands go through the same median_filter, on deep copies, and are written back to their own band", okl, detail="median_for_intervals must apply the same median to the _inf and the _sup band (and only to them)")
+    # "the same median": invalid pixels are neither filtered nor used (NaN-ed copy in, masked write-back out)
+    if loops:
+        lp = loops[0]
+        dl = Defs(f)
+        medc = [c for c in calls_in(lp) if isinstance(c.func, ast.Attribute) and c.func.attr == "median_filter"]
+        arg = medc[0].args[0].id if medc and medc[0].args and isinstance(medc[0].args[0], ast.Name) else None
+        nan_st = [s for s in walk_no_nested(lp) if isinstance(s, ast.Assign) and isinstance(s.targets[0], ast.Subscript) and arg and canon(s.targets[0].value) == arg and (dotted(s.value) or "") in ("np.nan", "numpy.nan")]
+        okm = False
+        if nan_st:
+            idx = nan_st[0].targets[0].slice
+            pred = _where_pred(idx)
+            okm = pred is not None and equivalent(boolform(pred), boolform(_ex(f"({dp}['validity_mask'].data & PANDORA_MSK_PIXEL_INVALID) != 0"))) is None and nan_st[0].lineno < medc[0].lineno
+        ctx.ob("C10.INTERVALS", MFI, nan_st[0] if nan_st else lp, f"interval bounds of invalid pixels are NaN-ed before the median ({src(nan_st[0])[:90] if nan_st else 'missing'})", okm, expected=f"{arg or 'masked_data'}[np.where(({dp}['validity_mask'].data & PANDORA_MSK_PIXEL_INVALID) != 0)] = np.nan", detail="'the same median' is the median of the *valid* values of the window: the bounds of pixels invalidated earlier (e.g. by the cross-checking) must not enter their neighbours' medians")
+        res = None
+        for s in walk_no_nested(lp):
+            if isinstance(s, ast.Assign) and isinstance(s.value, ast.Call) and s.value is (medc[0] if medc else None) and isinstance(s.targets[0], ast.Name):
+                res = s.targets[0].id
+        wb = [s for s in walk_no_nested(lp) if isinstance(s, ast.Assign) and isinstance(s.targets[0], ast.Subscript) and res and isinstance(s.value, ast.Subscript) and canon(s.value.value) == res and canon(s.value.slice) == canon(s.targets[0].slice)]
+        okw = False
+        if wb and arg:
+            vdef = dl.reaching(canon(wb[0].targets[0].slice), wb[0]) if isinstance(wb[0].targets[0].slice, ast.Name) else None
+            okw = vdef is not None and canon(vdef[1]) in (f"np.isfinite({arg})", f"{{!(np.isnan({arg}))}}", f"~np.isnan({arg})")
+        ctx.ob("C10.INTERVALS", MFI, wb[0] if wb else lp, f"only the bounds of valid pixels are replaced ({src(wb[0])[:80] if wb else 'write-back of the whole filtered band'})", okw, expected=f"bound[valid] = {res or 'disp_median'}[valid] with valid = np.isfinite({arg or 'masked_data'})", detail="a filter never changes an invalid pixel: writing the whole filtered band back gives invalid pixels the median of their neighbours' bounds")
     d2 = Defs(f)
     for nm, base in (("indicator_interval_inf", "confidence_from_interval_bounds_inf"), ("indicator_interval_sup", "confidence_from_interval_bounds_sup")):
         dd = d2.all_defs(nm)
@@ -206,6 +235,10 @@ def run(ctx: Ctx) -> None:
     consts = flag_constants(tree)
     st = [s for s in walk_no_nested(f) if isinstance(s, ast.AugAssign) and "validity_mask" in src(s.target)]
     ctx.ob("C10.BIT11", MFI, st[0] if st else f, src(st[0])[:120] if st else "bit 11 store", len(st) == 1 and flag_name(st[0].value, consts) == "PANDORA_MSK_PIXEL_INTERVAL_REGULARIZED", expected="|= PANDORA_MSK_PIXEL_INTERVAL_REGULARIZED only")
+    # border pixels keep the border criterion only: the regularisation mask covers the image border (ambiguity is 0 there)
+    rb = [s for s in walk_no_nested(f) if isinstance(s, ast.Assign) and canon(s.targets[0]) == f"{dp}['validity_mask']"]
+    okb = len(rb) == 1 and canon(rb[0].value) == f"mask_border({dp})" and bool(st) and rb[0].lineno > st[0].lineno and [canon(t) for t, pol in guards_of(rb[0], stop=f) if pol][:1] == [f"{{!([-{dp}.attrs['offset_row_col']]>=0)}}"] or (len(rb) == 1 and canon(rb[0].value) == f"mask_border({dp})" and bool(st) and rb[0].lineno > st[0].lineno and any(equivalent(boolform(t), boolform(_ex(f"{dp}.attrs['offset_row_col'] > 0"))) is None or equivalent(boolform(t), boolform(_ex(f"{dp}.attrs.get('offset_row_col', 0) > 0"))) is None for t, pol in guards_of(rb[0], stop=f) if pol))
+    ctx.ob("C10.BIT11", MFI, rb[0] if rb else f, f"after raising bit 11: {src(rb[0])[:70] if rb else 'no border reset'}", okb, expected=f"if {dp}.attrs['offset_row_col'] > 0: {dp}['validity_mask'] = mask_border({dp})", detail="image-border pixels carry bit 0 only: bit 11 raised on them would later be erased by the validation step's own border reset, so the final mask would depend on whether a validation step follows")
     k = rule_odd_window(ctx)
     ctx.floor("C10.ODD-WINDOW", k, 3)
 
@@ -229,6 +262,9 @@ SPEC = PropSpec(
 )
 
 MUTANTS = [
+    {"id": "interval-bands-not-masked-before-median", "file": MFI, "old": '            if "validity_mask" in disp.data_vars:\n                masked_data[np.where((disp["validity_mask"].data & PANDORA_MSK_PIXEL_INVALID) != 0)] = np.nan\n', "new": ""},
+    {"id": "interval-bands-written-back-whole", "file": MFI, "old": "            bound[valid] = disp_median[valid]\n", "new": "            bound[:] = disp_median\n"},
+    {"id": "bit11-left-on-the-border", "file": MFI, "old": '            if disp.attrs.get("offset_row_col", 0) > 0:\n                disp["validity_mask"] = mask_border(disp)\n', "new": ""},
     {"id": "spatial-kernel-centre-half-size-minus-half", "file": BIL, "old": "            arr[i, j] = np.sqrt(abs(i - kernel_size // 2) ** 2 + abs(j - kernel_size // 2) ** 2)", "new": "            arr[i, j] = np.sqrt(abs(i - (kernel_size - 1) / 2) ** 2 + abs(j - (kernel_size - 1) / 2) ** 2)"},
     {"id": "eq-spatial-kernel-vectorised-same-centre", "kind": "equiv", "file": BIL, "old": "        arr = np.zeros((kernel_size, kernel_size))\n        for [i, j], val in np.ndenumerate(arr):  # pylint:disable=unused-variable\n            arr[i, j] = np.sqrt(abs(i - kernel_size // 2) ** 2 + abs(j - kernel_size // 2) ** 2)\n", "new": "        center = kernel_size // 2\n        rows, cols = np.indices((kernel_size, kernel_size))\n        arr = np.sqrt((rows - center) ** 2 + (cols - center) ** 2)\n"},
     {"id": "store-unmasked", "file": MED, "old": 'disp["disparity_map"].data[valid] = disp_median[valid]', "new": 'disp["disparity_map"].data[:] = disp_median'},
